@@ -3,11 +3,36 @@
 //! (decoder and oracle: harness/src/fuzzdec.rs; known-finding classes are excluded there).
 use libfuzzer_sys::fuzz_target;
 
+use std::sync::mpsc::{channel, Receiver, Sender};
+use std::sync::{Mutex, OnceLock};
+
+/// one long-lived worker thread with a large stack (the naive reference interpreter and the crate's own
+/// recursion need it under ASan); creating a thread per execution would dominate the run time
+static WORKER: OnceLock<Mutex<(Sender<Vec<u8>>, Receiver<Option<String>>)>> = OnceLock::new();
+
+fn worker() -> &'static Mutex<(Sender<Vec<u8>>, Receiver<Option<String>>)> {
+    WORKER.get_or_init(|| {
+        let (tx, rx) = channel::<Vec<u8>>();
+        let (rtx, rrx) = channel::<Option<String>>();
+        std::thread::Builder::new()
+            .stack_size(1 << 30)
+            .spawn(move || {
+                for data in rx {
+                    let r = frv::fuzzdec::run_diff(&data).map(|f| frv::fuzzdec::describe(&f));
+                    if rtx.send(r).is_err() {
+                        break;
+                    }
+                }
+            })
+            .unwrap();
+        Mutex::new((tx, rrx))
+    })
+}
+
 fuzz_target!(|data: &[u8]| {
-    // the naive reference interpreter and the crate's own recursion get a large stack (ASan frames are big)
-    let data = data.to_vec();
-    let found = std::thread::Builder::new().stack_size(512 << 20).spawn(move || frv::fuzzdec::run_diff(&data)).unwrap().join().unwrap();
-    if let Some(f) = found {
-        panic!("C02 violation {}", frv::fuzzdec::describe(&f));
+    let w = worker().lock().unwrap();
+    w.0.send(data.to_vec()).unwrap();
+    if let Some(desc) = w.1.recv().unwrap() {
+        panic!("violation {}", desc);
     }
 });
